@@ -345,7 +345,11 @@ static inline int reserve_fields(flatcc_builder_t *B, int count)
     }
     /* Move past header for convenience. */
     B->vs += 2;
-    used = frame(container.table.pl_end);
+    /*
+     * Continue after the entries already logged for this table:
+     * `reserve_table` may be called after offset fields were added.
+     */
+    used = pl_offset(B->pl);
     /* Add one to handle special case of first table being empty. */
     need = (size_t)count * sizeof(*(B->pl)) + 1;
     if (!(B->pl = reserve_buffer(B, flatcc_builder_alloc_pl, used, need, 0))) {
